@@ -176,8 +176,14 @@ pub fn generate(rng: &mut Rng, tier: Tier) -> Plan {
     };
     let tod = if settle.is_some() { gen_tod(rng) } else { None };
     let float_only = rng.chance(0.3);
-    let far_decade: Option<f64> = if rng.chance(0.015) {
-        Some(*rng.pick(&[10.0, -10.0, 8.0, -8.0, 12.0, -12.0]))
+    let far_decade: Option<f64> = if rng.chance(0.02) {
+        // keep every cross and every cross/quote finite: |decade| * n <= ~240
+        let choices: &[f64] = if n <= 8 {
+            &[10.0, -10.0, 12.0, -12.0, 25.0, -25.0, 30.0, -30.0]
+        } else {
+            &[10.0, -10.0, 8.0, -8.0]
+        };
+        Some(*rng.pick(choices))
     } else {
         None
     };
